@@ -295,6 +295,11 @@ func (w *world) onPeer(n *xmltree.Node) {
 				if kind != "iq" {
 					typ = "error"
 				}
+			case "broken-xml", "broken-eof":
+				typ = "result"
+				if kind != "iq" {
+					typ = "error"
+				}
 			case "result":
 				if kind != "iq" {
 					typ = "error" // tracked messages and presences are only answered by errors
@@ -310,6 +315,19 @@ func (w *world) onPeer(n *xmltree.Node) {
 			errEl := ""
 			if typ == "error" {
 				errEl = "<error type='cancel'><item-not-found xmlns='urn:ietf:params:xml:ns:xmpp-stanzas'/></error>"
+			}
+			switch rs.What {
+			case "broken-xml":
+				// the reply breaks off inside the response stanza: not well-formed
+				w.p.Peer.Write([]byte(fmt.Sprintf("<%s type='%s' id='%s' rn='%d' rq='%s'><r xmlns='%s' rn='%d' rq='%s'><c/><d></e></r></%s>", kind, typ, esc(rid), rn, esc(rq), nsV, rn, esc(rq), kind)))
+				pl.sentOnce.Do(func() { close(pl.firstSent) })
+				return
+			case "broken-eof":
+				// the connection ends inside the response stanza
+				w.p.Peer.Write([]byte(fmt.Sprintf("<%s type='%s' id='%s' rn='%d' rq='%s'><r xmlns='%s' rn='%d' rq='%s'><c/><d>", kind, typ, esc(rid), rn, esc(rq), nsV, rn, esc(rq))))
+				w.p.Peer.CloseWrite()
+				pl.sentOnce.Do(func() { close(pl.firstSent) })
+				return
 			}
 			w.p.Peer.Write([]byte(fmt.Sprintf("<%s type='%s' id='%s' rn='%d' rq='%s'><r xmlns='%s' rn='%d' rq='%s'><c/><c/></r>%s</%s>", kind, typ, esc(rid), rn, esc(rq), nsV, rn, esc(rq), errEl, kind)))
 			pl.sentOnce.Do(func() { close(pl.firstSent) })
